@@ -184,6 +184,8 @@ def eval_call(model, n_pieces, have_H, have_A, zero_length=False, return_U=True,
         "_device": "device", "_have_H": have_H, "_have_A": have_A, "_dt": nf.sym("DT", True) if dt_known else None,
         "_halfway_tree": False, "_round": identity_round(), "_last_interval": last,
         "_num_evaluations": Fraction(-100), "_average_dt": Fraction(0), "_tree_dt": nf.sym("TREE_DT", True),
+        "_tol": nf.sym("TOL", True), "_entropy": nf.sym("ENTROPY", True), "_pool_size": nf.sym("POOL", True),
+        "_cache_size": Fraction(45), "_levy_area_approximation": "foster" if have_A else ("space-time" if have_H else "none"),
     })
     out = it.call_function(fi, [me, ta, tb], {"return_U": return_U, "return_A": return_A})
     return dict(out=out, ta=ta, tb=tb, cuts=cuts, pieces=pieces, loc_calls=loc_calls, me=me, hooks=hooks, fi=fi,
